@@ -4,7 +4,7 @@ import shutil
 
 from common import cps, uncps, hx, unhx, drv, run_cli
 
-NAME_CHARS = "ABCDEFGHIJKLMNOPQRSTUVWXYZabcdefghijklmnopqrstuvwxyz0123456789_-+!#$%&@~*'()[]{}^`;="
+NAME_CHARS = "ABCDEFGHIJKLMNOPQRSTUVWXYZabcdefghijklmnopqrstuvwxyz0123456789_-+!#$%&@~*'()[]{}^`;=" + ':"\\<>?|\x7f'   # every printable a host name may hold, and DEL
 SIZES = [0, 1, 2, 253, 254, 255, 256, 507, 508, 509, 761, 762, 763, 1015, 1016, 1017]
 
 
